@@ -1252,6 +1252,38 @@ def run(tier, replay=None):
                        'rejected with a type error, whatever the order of the rules'})
         break
 
+  # --- a clash between an outer variable and its use inside the k-th combine of a rule: rejected whatever
+  #     the order of the conjuncts and whichever combine holds the clash (part b)
+  stats['combine_clash_orders'] = 0
+  for inst in range(4 if tier == 'quick' else 30):
+    n_comb = fam_r.choice([2, 2, 3])
+    bad_at = fam_r.randrange(n_comb)
+    outer_num = fam_r.random() < 0.6
+    fact = 'Tc(1);\nTc(2);' if outer_num else 'Tc("p");\nTc("q");'
+    conj = ['Tc(x)']
+    heads = ['x']
+    for k in range(n_comb):
+      v = 'a%d' % k
+      heads.append(v)
+      if k == bad_at:   # the outer variable is used at the other type inside this combine
+        body = ('List{x ++ z :- z in ["u", "v"]}' if outer_num else 'Sum{x + z :- z in [1, 2]}')
+      else:
+        body = fam_r.choice(['Sum{y :- y in [1, 2]}', 'List{w :- w in ["s"]}', 'Max{y * 2 :- y in [3]}'])
+      conj.append('%s == %s' % (v, body))
+    orders = list(itertools.permutations(conj))
+    if len(orders) > 24:
+      orders = fam_r.sample(orders, 24)
+    for order in orders:
+      text = HEADER + fact + '\nPc(%s) :- %s;\n' % (', '.join(heads), ', '.join(order))
+      fc = full_check(text, ['Pc'], compile_preds=False)
+      stats['combine_clash_orders'] += 1
+      if fc['status'] != 'TypeError':
+        report('combine-clash:%s' % ('accepted' if fc['status'] == 'ok' else fc['status']),
+               {'kind': 'reject', 'text': text, 'observed': fc,
+                'law': '(b) a variable forced to two ground types (outside and inside a combine) is rejected with a type '
+                       'error, whatever the order of the conjuncts'})
+        break
+
   for name, body, exp, n_comb in FIXED:
     text = HEADER + body
     fc = full_check(text, list(exp), compile_preds=True)
